@@ -96,6 +96,8 @@ fn main() {
         "C07" => fsmon::run::run_model_check(&ctx, "C07", 1500, 50_000),
         "C08" => fsmon::run::run_model_check(&ctx, "C08", 1500, 50_000),
         "C16" => fsmon::run::run_model_check(&ctx, "C16", 1500, 50_000),
+        "C09" => fsmon::crash::run(&ctx, "C09"),
+        "C10" => fsmon::crash::run(&ctx, "C10"),
         "C06" => checks::c06::run(&ctx),
         "C15" => checks::c15::run(&ctx),
         "C17" => codec::lfn::run(&ctx),
